@@ -25,7 +25,9 @@ echo "worktree: build=$rc_build suite_with_change=$rc_suite demo_with_change=$rc
 # now the framework
 cd /repo && test -z "$(git status --short)" || { echo "/repo not clean"; exit 2; }
 git apply $out/patch.diff || { echo "patch does not apply to /repo"; exit 2; }
+cp /verif/evidence/$prop.json /tmp/evidence_$prop.bak 2>/dev/null
 cd /verif && ./bin/govc check $prop --tier quick > $out/check.log 2>&1; rc_check=$?
+cp /tmp/evidence_$prop.bak /verif/evidence/$prop.json 2>/dev/null; rm -f /tmp/evidence_$prop.bak
 git -C /repo checkout -- .
 grep -c "^VIOLATION" $out/check.log | sed 's/^/violations reported: /'
 grep "^VIOLATION" $out/check.log | head -3
